@@ -359,6 +359,8 @@ typedef struct {
 	bool       decoy;
 	nng_dialer dialer; // decoy: the second dialer of the socket under test
 	int        sent;
+	int        tran;
+	pmon       mon; // the extra's own view: attached, then dropped
 } xnng;
 
 struct scase {
@@ -389,7 +391,9 @@ msg_size(const dirst *d, int i)
 {
 	uint64_t x = vf_mix64(d->key ^ ((uint64_t) i * 0x9e3779b97f4a7c15ULL));
 	if (d->bulk) {
-		return 32768 + (size_t) ((x >> 8) % 32768);
+		// big enough to fill the kernel's socket buffers while paused
+		size_t base = d->c->tran == VF_T_TCP ? 65536 : 32768;
+		return base + (size_t) ((x >> 8) % base);
 	}
 	if ((x & 15) == 0) {
 		return VF_BODY_MIN + (size_t) ((x >> 8) % 8000);
@@ -777,6 +781,8 @@ launch_extra_nng(scase *c, vf_rng *r)
 	if ((c->pk->v1 ? nng_pair1_open(&x->s) : nng_pair0_open(&x->s)) != 0) {
 		vf_harness_fail("open extra");
 	}
+	mon_attach(x->s, &x->mon, c->pk->name);
+	x->tran = l->tran;
 	nng_socket_set_ms(x->s, NNG_OPT_RECONNMINT, (nng_duration) vf_range(r, 30, 90));
 	nng_socket_set_ms(x->s, NNG_OPT_RECONNMAXT, 100);
 	nng_socket_set_int(x->s, NNG_OPT_SENDBUF, 2);
@@ -811,6 +817,8 @@ launch_decoy(scase *c, vf_rng *r)
 	if ((c->pk->v1 ? nng_pair1_open(&x->s) : nng_pair0_open(&x->s)) != 0) {
 		vf_harness_fail("open decoy");
 	}
+	mon_attach(x->s, &x->mon, c->pk->name);
+	x->tran = t;
 	nng_socket_set_int(x->s, NNG_OPT_SENDBUF, 0);
 	vf_url(t, url, sizeof(url));
 	if (nng_listen(x->s, url, &nl, 0) != 0 ||
@@ -862,6 +870,13 @@ close_extras(scase *c)
 		}
 		nng_aio_free(x->raio);
 		nng_socket_close(x->s);
+		// every pipe the extra saw attached on its own side was refused
+		// by the socket under test (whose live count stayed <= 1)
+		monsnap xs = mon_get(&x->mon);
+		if (xs.post > 0) {
+			vf_stat(x->decoy ? "second_dialer_connections_refused" : "extra_nng_connections_refused", xs.post);
+			vf_class("refused/%s/%s/%s", x->decoy ? "second-dialer" : "nng", c->pk->name, vf_tran_names[x->tran]);
+		}
 	}
 	if (c->nx > 0) {
 		vf_quiesce(2, 3000);
@@ -1189,7 +1204,6 @@ stream_case(long idx, vf_rng *r)
 	bool clean = !failed && !stalled;
 	// extra peers go away first so that none of them can become the peer
 	monsnap sa = mon_get(&c->ma), sb = mon_get(&c->mb);
-	long    extras_nng = c->nx;
 	close_extras(c);
 	if (clean) {
 		// nothing more may arrive in either direction
@@ -1222,9 +1236,6 @@ stream_case(long idx, vf_rng *r)
 		vf_stat("cases", 1);
 		vf_stat("delivered_in_order", c->d[0].n + c->d[1].n);
 		vf_stat("refused_pipes", refused);
-		if (extras_nng > 0 && refused > 0) {
-			vf_class("refused/nng/%s/%s", c->pk->name, vf_tran_names[c->tran]);
-		}
 		if (sa.maxlive == 1 && sb.maxlive == 1) {
 			vf_stat("onepeer_cases_with_extras", (refused > 0 || refused_raw > 0) ? 1 : 0);
 		}
